@@ -171,3 +171,145 @@ Theorem journey_refuted_preempt_blocked :
          (forall an : BinNums.Z -> option BinNums.Z, ~ Journey2.JH an h9 s9).
 Proof. exact Journey2.journey_refuted_preempt_blocked. Qed.
 Print Assumptions journey_refuted_preempt_blocked.
+
+(* ---- Journey2s ---- *)
+From CiwV.Inv Require Journey2s.
+
+Theorem event_step_jrn2s :
+  forall (cf : State2.config) (an : BinNums.Z -> option BinNums.Z)
+         (s s' : State2.sim) (h : list State2.rec),
+       Journey2s.scope2s cf = true ->
+       Journey2s.Jrn2s cf an s h ->
+       Engine2.event_step cf s = State2.Ok (tt, s') ->
+       Journey2s.Jrn2s cf (Journey2.an_step s an) s' (h ++ State2.log s').
+Proof. exact Journey2s.event_step_jrn2s. Qed.
+Print Assumptions event_step_jrn2s.
+
+Theorem engine_journey2s :
+  forall (cf : State2.config) (ds : list State2.draws) 
+         (s : State2.sim) (h : list State2.rec)
+         (an : BinNums.Z -> option BinNums.Z) (s' : State2.sim)
+         (h' : list State2.rec) (an' : BinNums.Z -> option BinNums.Z),
+       Journey2s.scope2s cf = true ->
+       Journey2s.Jrn2s cf an s h ->
+       Journey2.run_hist cf s h an ds = State2.Ok (s', h', an') ->
+       Codec2.run_many cf s ds = State2.Ok s' /\
+       (exists t : list State2.rec, h' = (h ++ t)%list) /\
+       Journey2s.Jrn2s cf an' s' h'.
+Proof. exact Journey2s.engine_journey2s. Qed.
+Print Assumptions engine_journey2s.
+
+Theorem Jrn2s_means :
+  forall (cf : State2.config) (an : BinNums.Z -> option BinNums.Z)
+         (s : State2.sim) (h : list State2.rec),
+       Journey2s.Jrn2s cf an s h ->
+       (forall (i : BinNums.Z) (r : State2.rec) (l : list State2.rec),
+        Journey2.recs_of i h = (r :: l)%list -> an i = Some (State2.r_node r)) /\
+       (forall (i : BinNums.Z) (l1 : list State2.rec) 
+          (r1 r2 : State2.rec) (l2 : list State2.rec),
+        Journey2.recs_of i h = (l1 ++ r1 :: r2 :: l2)%list ->
+        Journey2.visit r2 /\
+        (Journey2.closing r1 /\
+         State2.r_dest r1 = Some (State2.r_node r2) /\
+         State2.r_exit r1 = State2.r_arr r2 \/
+         Journey2.cont r1 /\
+         State2.r_node r2 = State2.r_node r1 /\
+         State2.r_arr r2 = State2.r_arr r1)) /\
+       (forall r : State2.rec,
+        List.In r h ->
+        ~ Journey2.visit r ->
+        Journey2.recs_of (State2.r_id r) h = (r :: nil)%list) /\
+       (forall (k : nat) (nd : State2.node) (i : BinNums.Z),
+        List.nth_error (State2.nodes s) k = Some nd ->
+        List.In i (Engine2.all_individuals nd) ->
+        exists x : State2.ind,
+          Engine2.find_ind i (State2.inds s) = Some x /\
+          State2.i_node x =
+          Some (BinInt.Z.add (BinInt.Z.of_nat k) (BinNums.Zpos BinNums.xH)) /\
+          State2.i_nrec x = Prelude.zlen (Journey2.recs_of i h) /\
+          (Journey2.recs_of i h = nil /\
+           an i =
+           Some (BinInt.Z.add (BinInt.Z.of_nat k) (BinNums.Zpos BinNums.xH)) \/
+           (exists (l : list State2.rec) (r : State2.rec),
+              Journey2.recs_of i h = (l ++ r :: nil)%list /\
+              (Journey2.closing r /\
+               State2.r_dest r =
+               Some
+                 (BinInt.Z.add (BinInt.Z.of_nat k) (BinNums.Zpos BinNums.xH)) /\
+               State2.r_exit r = State2.i_arr x \/
+               Journey2.cont r /\
+               State2.r_node r =
+               BinInt.Z.add (BinInt.Z.of_nat k) (BinNums.Zpos BinNums.xH) /\
+               State2.r_arr r = State2.i_arr x))) /\
+          (forall (l1 : list State2.rec) (r : State2.rec)
+             (l2 : list State2.rec),
+           Journey2.recs_of i h = (l1 ++ r :: l2)%list ->
+           List.Forall Journey2.cont l2 ->
+           Journey2.closing r ->
+           State2.r_dest r =
+           Some (BinInt.Z.add (BinInt.Z.of_nat k) (BinNums.Zpos BinNums.xH)) /\
+           State2.r_exit r = State2.i_arr x /\
+           List.Forall
+             (fun r' : State2.rec =>
+              State2.r_node r' =
+              BinInt.Z.add (BinInt.Z.of_nat k) (BinNums.Zpos BinNums.xH) /\
+              State2.r_arr r' = State2.i_arr x) l2) /\
+          (List.Forall Journey2.cont (Journey2.recs_of i h) ->
+           an i =
+           Some (BinInt.Z.add (BinInt.Z.of_nat k) (BinNums.Zpos BinNums.xH)) /\
+           List.Forall
+             (fun r' : State2.rec =>
+              State2.r_node r' =
+              BinInt.Z.add (BinInt.Z.of_nat k) (BinNums.Zpos BinNums.xH) /\
+              State2.r_arr r' = State2.i_arr x) (Journey2.recs_of i h))) /\
+       (forall i : BinNums.Z,
+        BinInt.Z.le (BinNums.Zpos BinNums.xH) i /\
+        BinInt.Z.le i (State2.a_created (State2.arr s)) ->
+        List.In i (State2.exit_ids s) <->
+        (exists (l : list State2.rec) (r : State2.rec),
+           Journey2.recs_of i h = (l ++ r :: nil)%list /\
+           (State2.r_dest r = Some (BinNums.Zneg BinNums.xH) \/
+            State2.r_type r = BinNums.Zpos (BinNums.xI BinNums.xH) \/
+            State2.r_type r =
+            BinNums.Zpos (BinNums.xO (BinNums.xO BinNums.xH))))) /\
+       (forall r : State2.rec,
+        List.In r h ->
+        BinInt.Z.le (State2.r_id r) (State2.a_created (State2.arr s))).
+Proof. exact Journey2s.Jrn2s_means. Qed.
+Print Assumptions Jrn2s_means.
+
+Theorem Jrn2s_int_means :
+  forall (cf : State2.config) (an : BinNums.Z -> option BinNums.Z)
+         (s : State2.sim) (h : list State2.rec),
+       Journey2s.Jrn2s cf an s h ->
+       forall (k : nat) (nd : State2.node),
+       List.nth_error (State2.nodes s) k = Some nd ->
+       List.NoDup (State2.n_interrupted nd) /\
+       (Journey2s.psched_of cf
+          (BinInt.Z.add (BinInt.Z.of_nat k) (BinNums.Zpos BinNums.xH)) =
+        false -> State2.n_interrupted nd = nil) /\
+       (forall i : BinNums.Z,
+        List.In i (State2.n_interrupted nd) ->
+        List.In i (Engine2.all_individuals nd) /\
+        (forall sv : State2.server,
+         List.In sv (State2.n_servers nd) -> State2.sv_cust sv <> Some i) /\
+        (exists x : State2.ind,
+           Engine2.find_ind i (State2.inds s) = Some x /\
+           State2.i_node x =
+           Some (BinInt.Z.add (BinInt.Z.of_nat k) (BinNums.Zpos BinNums.xH)) /\
+           State2.i_server x <> None /\ State2.i_blocked x = false)).
+Proof. exact Journey2s.Jrn2s_int_means. Qed.
+Print Assumptions Jrn2s_int_means.
+
+Theorem jrn2s_b_sound :
+  forall (cf : State2.config) (an : BinNums.Z -> option BinNums.Z)
+         (s : State2.sim) (h : list State2.rec),
+       Journey2s.jrn2s_b cf an s h = true -> Journey2s.Jrn2s cf an s h.
+Proof. exact Journey2s.jrn2s_b_sound. Qed.
+Print Assumptions jrn2s_b_sound.
+
+Theorem scope2_scope2s :
+  forall cf : State2.config,
+       Journey2.scope2 cf = true -> Journey2s.scope2s cf = true.
+Proof. exact Journey2s.scope2_scope2s. Qed.
+Print Assumptions scope2_scope2s.
